@@ -174,6 +174,7 @@ func extractMuxFacts(repo, root string) error {
 	pconn := f.parse(repo, "protocol/conn.go")
 	prt := f.parse(repo, "protocol/roundtrip.go")
 	sa := f.parse(repo, "protocol/saslauthenticate/saslauthenticate.go")
+	f.parse(repo, "dialer.go")
 
 	// ---- doRequest: the id is taken and the request written inside ONE wlock critical section
 	if fd := findFunc(conn, "Conn", "doRequest"); fd != nil {
